@@ -91,10 +91,18 @@ def gen_section(rng, max_image, allow_ignored=True):
         v = rng.getrandbits(rng.choice([32, 32, 28, 24, 20, 12, 4]))
         sec["crc"] = rng.choice(["%08X", "%08X", "%X", "%x"]) % v
     sec["reboot"] = rng.random() < 0.5
+    # a package may carry several firmwares: a section can bring its own ##Firmware header
+    if rng.random() < 0.2:
+        if rng.random() < 0.7:
+            sec["fw"] = {"id": rng.choice([1053, 1100, 4242, 7]), "ver": "%d.%02d.%02d" % (
+                rng.randrange(10), rng.randrange(100), rng.randrange(100))}
+        else:
+            sec["fw"] = {"id": 1053, "ver": "D-%05d" % rng.randrange(100000)}
     return sec
 
 
-UNKNOWN_TTS = [0x10, 0x50, 0x60, 0xB0, 0xFD]     # outside every known tag-type range
+UNKNOWN_TTS = [0x10, 0x50, 0x60, 0xB0, 0xFD,     # outside every known tag-type range ...
+               0x33, 0x3F, 0x49, 0x6F, 0x74, 0x82, 0xA4]   # ... including the values right next to a range
 UNMAPPED_FIRST = [0x36, 0x71, 0x85, 0x41]        # inside a known range but not the base type of a section
 for _t in UNKNOWN_TTS + UNMAPPED_FIRST:
     PAGES[_t] = 1
@@ -203,6 +211,8 @@ def render_items(spec):
             v = bytes.fromhex(desc)
             vd = (b"\x01\x00" + bytes([len(v)]) + v).hex(" ").upper()
         items.append(("instr", si, "#>CHECK_FWVER VERSIONDESC=" + vd, None))
+        if sec.get("fw"):
+            items.append(("instr", si, "##Firmware: %04d BALTECHFW %s" % (sec["fw"]["id"], sec["fw"]["ver"]), None))
         if sec["select"]:
             items.append(("instr", si, "#>SELECT FILTER=" + bytes.fromhex(sec["select"]).hex(" ").upper(), None))
         if sec["select_if"]:
@@ -257,7 +267,10 @@ def filter_eval(fbytes, present):
 def truth(spec):
     """expected components in output order: list of {si, type, fmt, tags(dict), payload}"""
     comps = []
+    fw_now = spec["fw"]
     for si, sec in enumerate(spec["sections"]):
+        if sec.get("fw"):
+            fw_now = sec["fw"]       # the header in force for this and the following sections
         info = TAGTYPES.get(sec["tt"])
         if info is None:
             continue
@@ -278,9 +291,9 @@ def truth(spec):
                 tags[T_HWCID] = f[-2:]
         if sec["fwver"] not in (None, "*"):
             tags[T_FWVER] = bytes.fromhex(sec["fwver"])
-        if spec["fw"] and not spec["fw"]["ver"].startswith("D-") and ctype in (0, 2):
-            tags[T_FWVER] = spec["fw"]["id"].to_bytes(2, "big") + bytes(
-                int(x) for x in spec["fw"]["ver"].split("."))
+        if fw_now and not fw_now["ver"].startswith("D-") and ctype in (0, 2):
+            tags[T_FWVER] = fw_now["id"].to_bytes(2, "big") + bytes(
+                int(x) for x in fw_now["ver"].split("."))
         if sec["select_if"] and sec["select_if"] != "*":
             tags[T_INTF] = bytes([INTERFACES[sec["select_if"]]])
         lines = section_lines(sec)
@@ -319,6 +332,8 @@ def spec_shrinks(spec):
     if spec.get("crlf"):
         yield dict(spec, crlf=False)
     for i, s in enumerate(secs):
+        if s.get("fw"):
+            yield dict(spec, sections=secs[:i] + [dict(s, fw=None)] + secs[i + 1:])
         for k in ("select", "select_if", "fwver", "crc"):
             if s[k]:
                 if k == "select_if" and TAGTYPES.get(s["tt"]) and TAGTYPES[s["tt"]][0] == 0:
